@@ -9,6 +9,7 @@ import (
 	"fmt"
 	"math"
 	"math/big"
+	"strconv"
 	"strings"
 	"unicode"
 	"unicode/utf8"
@@ -101,10 +102,16 @@ func numFloat(x float64, m numMode) string {
 	if math.IsNaN(x) || math.IsInf(x, 0) {
 		return F(x)
 	}
-	if x == math.Trunc(x) {
-		bf := new(big.Float).SetFloat64(x)
-		bi, _ := bf.Int(nil)
-		return numByValueInt(bi)
+	// By value: a float is the number its shortest round-tripping decimal denotes (that decimal is
+	// what the format carries; any decimal in the rounding interval is the same float64). When the
+	// decimal is an integer literal it is compared with INT/HEX values as that integer, e.g. the
+	// float 2^53+... printed as -46176283016639300 equals the integer -46176283016639300.
+	t := strconv.FormatFloat(x, 'f', -1, 64)
+	if !strings.Contains(t, ".") {
+		bi, ok := new(big.Int).SetString(t, 10)
+		if ok {
+			return numByValueInt(bi)
+		}
 	}
 	return F(x)
 }
